@@ -700,6 +700,9 @@ func (prop c01) Execute(sc *sim.Scenario) *sim.Outcome {
 		sig = sig.Int(c)
 	}
 	fin := func() *sim.Outcome { return finish(out, lh, sig, start) }
+	for _, st := range sc.Steps {
+		out.Probes["op/"+st.Op]++
+	}
 
 	/* 1. the program itself */
 	main := p.build(nil, true, nil)
